@@ -797,7 +797,7 @@ int main(int argc, char ** argv)
     return 0;
   }
   return vh::run(argc, argv, "C15",
-           {g_units_quick.size() + 3000, g_units_thorough.size() + 2000000}, one_case,
+           {g_units_quick.size() + 3000, g_units_thorough.size() + 500000}, one_case,
            [](vh::Ctx & c) {
              if (c.shard == 0) {
                c.count("exhaustive_units_in_tier", (c.tier == "thorough" ? g_units_thorough : g_units_quick).size());
